@@ -573,6 +573,11 @@ class Executor:
             for label, cl in self.c.atomic.invariant:
                 st.pc.append(_b(cl(Scope(st, names, self.old_scope, {'seg': self.old_scope}))))
         frame = Frame(self.c, self.fnode, self.module, dict(names))
+        va = getattr(self.c, 'varargs', None)
+        if va is not None:
+            # `*name` of the real signature, verified for a fixed arity (one contract variant per arity)
+            frame.env[va[0]] = VTuple([st.read(names[p].loc) if isinstance(names[p], Alias) else names[p]
+                                       for p in va[1]])
         self.frames = [frame]
         # cover: the precondition must be satisfiable (vacuity guard)
         if not self.oracle.prefix:
@@ -1053,6 +1058,13 @@ class Executor:
                             if isinstance(a, (ast.Name, ast.Attribute)):
                                 touch(a, call=True)
                 if isinstance(n, ast.Call) and isinstance(n.func, ast.Name):
+                    callee = frame.contract.calls.get(n.func.id)
+                    if isinstance(callee, Contract) and (callee.pure or callee.modifies == []):
+                        continue        # the callee's contract says it modifies nothing
+                    if n.func.id in ('len', 'min', 'max', 'sorted', 'enumerate', 'range', 'reversed', 'isinstance',
+                                     'frozenset', 'set', 'list', 'tuple', 'iter', 'next', 'any', 'all', 'bool',
+                                     'int', 'bytes', 'memoryview', 'islice', 'chain', 'bisect_left', 'bisect_right'):
+                        continue
                     for a in list(n.args) + [k.value for k in n.keywords]:
                         if isinstance(a, (ast.Name, ast.Attribute)):
                             touch(a, call=True)
@@ -1542,6 +1554,7 @@ class Executor:
         j = z3.Int(fresh_name('j'))
         r = VList(z3.simplify(ln), z3.Lambda([j], cont.arr[j + lo]), cont.elem)
         r.slice_of = (cont, lo, hi)
+        r.slice_bounds = (z3.simplify(lo), z3.simplify(hi))
         if getattr(cont, 'is_bytes', False):
             r.is_bytes = True
         return r
@@ -1560,6 +1573,8 @@ class Executor:
         v = ListS(es).empty()
         for x in items:
             v = v.append(x)
+        if not items and not isinstance(hint, ListS):
+            v.empty_literal = True
         return v
 
     def local_hint(self, frame, e):
@@ -1749,6 +1764,19 @@ class Executor:
         return _b(self.truth(self.pure_eval(e, frame)))
 
     def ex_ListComp(self, e, frame, hint=None, want_seq=False):
+        if len(e.generators) == 1:
+            src = self.eval(e.generators[0].iter, frame, want_seq=True)
+            if isinstance(src, VTuple) and len(src.items) <= 6:
+                # a python-level tuple of known arity (e.g. *args): unroll, forking on the filter per item
+                g = e.generators[0]
+                picked = []
+                saved = dict(frame.env)
+                for item in src.items:
+                    self.assign(g.target, item, frame)
+                    if all(self.decide(self.truth(self.eval(c, frame))) for c in g.ifs):
+                        picked.append(self.eval(e.elt, frame))
+                frame.env = saved
+                return VTuple(picked)
         seq, g = self.comp_seq(e, frame)
         k = z3.Int(fresh_name('ck'))
         (val,), cond = self.eval_pure_at(seq, g, [e.elt], frame, k)
